@@ -15,6 +15,7 @@ RULE = (
     "struct-based writer produces the image and a content model; VDI(fh).read must equal the model. "
     "Non-trivial = some request spans >= 2 blocks whose physical positions are not consecutive ascending, or touches "
     "the partial last block; distinct = BLAKE2 of the canonical spec JSON."
+    ' Images are also opened by a second reader on the same handle after the first reader was dropped.'
 )
 ASSUMPTIONS = [
     "block sizes are powers of two >= 512 (the statement says 'every block size'; VDICore only requires a power of two)",
